@@ -9,21 +9,69 @@ import PbVerif.Lemmas.WktJsonStruct
 Theorems about the model `PbVerif/Model/WktJson.lean` of `/repo/encoding/protojson/well_known_types.go`.
 All statements quantify over ALL inputs (strings, integers); nothing is bounded.
 
-Obligations refuted on the current tree (kept as comments next to the proved negation and the
-`_partial` theorem): `parseDuration_iff` (DESIGN finding 8), `unmarshalTimestamp_rfc3339` (finding 9 and
-the one-digit hour).
+Obligation refuted on the current tree (kept as a comment next to the proved negation and the `_partial`
+theorem): `unmarshalTimestamp_rfc3339` (offset 24:00 / xx:60 of DESIGN finding 9, and the one-digit hour).
+`parseDuration_iff` holds at full strength since /repo 5d68604 (finding 8 repaired); the ',' part of finding 9
+is repaired by /repo 5508893.
 -/
 namespace C23
 open WktJson
 
 /-! ## Duration: the scanner against the documented grammar -/
 
-/- FULL STATEMENT (false of the current code, see `parseDuration_accepts_no_digits`):
-
+/-- `parseDuration` (the scanner alone) accepts exactly the documented literals whose integer part fits
+`int64`, with the documented value. -/
 theorem parseDuration_iff (s : Str) (v : Int × Int) :
+    parseDuration s = some v ↔
+      ∃ p : DurParts, p.WF ∧ p.render = s ∧ p.value = v ∧ natOfDigits (optChars p.intp) ≤ maxInt64 := by
+  constructor
+  · intro h; exact parseDuration_sound h
+  · rintro ⟨p, hwf, hr, hv, hm⟩
+    rw [← hr, ← hv]
+    exact parseDuration_render p hwf hm
+
+theorem value_fst_natAbs (p : DurParts) : p.value.1.natAbs = natOfDigits (optChars p.intp) := by
+  unfold DurParts.value
+  split <;> simp
+
+/-- `unmarshalDuration` (scanner + range test) accepts exactly the strings of the documented grammar
+`[+-]? ( int [ '.' digit{0,9} ] | '.' digit{1,9} ) 's'` whose seconds are within ±315,576,000,000, with the
+documented value — for ALL strings. -/
+theorem unmarshalDuration_iff (s : Str) (v : Int × Int) :
     unmarshalDuration s = some v ↔
-      DurationDenotes s v ∧ -maxSecondsInDuration ≤ v.1 ∧ v.1 ≤ maxSecondsInDuration
--/
+      DurationDenotes s v ∧ -maxSecondsInDuration ≤ v.1 ∧ v.1 ≤ maxSecondsInDuration := by
+  unfold unmarshalDuration
+  constructor
+  · intro h
+    cases hp : parseDuration s with
+    | none => simp [hp] at h
+    | some w =>
+      obtain ⟨a, b⟩ := w
+      simp only [hp, Option.bind_some] at h
+      split at h
+      · cases h
+      · next hr =>
+        injection h with h
+        subst h
+        obtain ⟨p, hwf, hrn, hv, _⟩ := (parseDuration_iff s (a, b)).mp hp
+        exact ⟨⟨p, hwf, hrn, hv⟩, by omega, by omega⟩
+  · rintro ⟨⟨p, hwf, hr, hv⟩, h1, h2⟩
+    have hm : natOfDigits (optChars p.intp) ≤ maxInt64 := by
+      have := value_fst_natAbs p
+      rw [hv] at this
+      simp only [maxSecondsInDuration] at h1 h2
+      simp only [maxInt64]
+      omega
+    have hp := (parseDuration_iff s v).mpr ⟨p, hwf, hr, hv, hm⟩
+    obtain ⟨a, b⟩ := v
+    simp only [hp, Option.bind_some]
+    rw [if_neg (by simp only at h1 h2; omega)]
+
+/-- in particular, whatever is accepted belongs to the documented grammar -/
+theorem unmarshalDuration_in_grammar (s : Str) (v : Int × Int) (h : unmarshalDuration s = some v) :
+    DurationGrammar s := by
+  obtain ⟨⟨p, hwf, hr, _⟩, _, _⟩ := (unmarshalDuration_iff s v).mp h
+  exact ⟨p, hwf, hr⟩
 
 /-- ".s" is not in the documented grammar ("There needs to be at least an integer or fractional part") -/
 theorem dotS_not_in_grammar : ¬ DurationGrammar ['.', 's'] := by
@@ -54,68 +102,13 @@ theorem dotS_not_in_grammar : ¬ DurationGrammar ['.', 's'] := by
       | nil => exact hds rfl
       | cons d t => simp at ht
 
-/-- NEGATION of `parseDuration_iff` on a concrete witness (finding 8): the code accepts ".s" (also "-.s",
-"+.s") as the zero Duration although the documented grammar does not contain it. -/
-theorem parseDuration_accepts_no_digits :
-    ¬ (∀ (s : Str) (v : Int × Int), unmarshalDuration s = some v → DurationGrammar s) := by
-  intro h
-  exact dotS_not_in_grammar (h ['.', 's'] (0, 0) (by decide))
+/-- the strings of DESIGN finding 8 are rejected (repaired by /repo 5d68604) -/
+theorem noDigits_rejected :
+    unmarshalDuration ['.', 's'] = none ∧ unmarshalDuration ['-', '.', 's'] = none ∧
+      unmarshalDuration ['+', '.', 's'] = none ∧ unmarshalDuration ['.', 'x', 's'] = none := by decide
 
-theorem noDigits_accepted :
-    unmarshalDuration ['.', 's'] = some (0, 0) ∧ unmarshalDuration ['-', '.', 's'] = some (0, 0) ∧
-      unmarshalDuration ['+', '.', 's'] = some (0, 0) := by decide
-
-/-- `parseDuration` (the scanner alone) accepts exactly the documented literals whose integer part fits
-`int64`, with the documented value — except that it also accepts `.s`, `+.s`, `-.s`. -/
-theorem parseDuration_iff_partial (s : Str) (v : Int × Int) (hx : ¬ noDigits s) :
-    parseDuration s = some v ↔
-      ∃ p : DurParts, p.WF ∧ p.render = s ∧ p.value = v ∧ natOfDigits (optChars p.intp) ≤ maxInt64 := by
-  constructor
-  · intro h; exact parseDuration_sound h hx
-  · rintro ⟨p, hwf, hr, hv, hm⟩
-    rw [← hr, ← hv]
-    exact parseDuration_render p hwf hm
-
-theorem value_fst_natAbs (p : DurParts) : p.value.1.natAbs = natOfDigits (optChars p.intp) := by
-  unfold DurParts.value
-  split <;> simp
-
-/-- `unmarshalDuration` (scanner + range test) accepts exactly the strings of the documented grammar whose
-seconds are within ±315,576,000,000, with the documented value — except `.s`, `+.s`, `-.s`. -/
-theorem unmarshalDuration_iff_partial (s : Str) (v : Int × Int) (hx : ¬ noDigits s) :
-    unmarshalDuration s = some v ↔
-      DurationDenotes s v ∧ -maxSecondsInDuration ≤ v.1 ∧ v.1 ≤ maxSecondsInDuration := by
-  unfold unmarshalDuration
-  constructor
-  · intro h
-    cases hp : parseDuration s with
-    | none => simp [hp] at h
-    | some w =>
-      obtain ⟨a, b⟩ := w
-      simp only [hp, Option.bind_some] at h
-      split at h
-      · cases h
-      · next hr =>
-        injection h with h
-        subst h
-        obtain ⟨p, hwf, hrn, hv, _⟩ := (parseDuration_iff_partial s (a, b) hx).mp hp
-        exact ⟨⟨p, hwf, hrn, hv⟩, by omega, by omega⟩
-  · rintro ⟨⟨p, hwf, hr, hv⟩, h1, h2⟩
-    have hm : natOfDigits (optChars p.intp) ≤ maxInt64 := by
-      have := value_fst_natAbs p
-      rw [hv] at this
-      simp only [maxSecondsInDuration] at h1 h2
-      simp only [maxInt64]
-      omega
-    have hp := (parseDuration_iff_partial s v hx).mpr ⟨p, hwf, hr, hv, hm⟩
-    obtain ⟨a, b⟩ := v
-    simp only [hp, Option.bind_some]
-    rw [if_neg (by simp only at h1 h2; omega)]
-
-example : ¬ noDigits "-0.500s".toList ∧ unmarshalDuration "-0.500s".toList = some (0, -500000000) := by
-  constructor
-  · simp [noDigits]
-  · decide
+example : unmarshalDuration "-0.500s".toList = some (0, -500000000) ∧ unmarshalDuration "-.5s".toList = some (0, -500000000) ∧
+    unmarshalDuration "1.s".toList = some (1, 0) := by decide
 
 /-! ## Duration: marshal, round trip, ranges -/
 
@@ -193,36 +186,31 @@ theorem fmtDuration_frac_digits (secs nanos : Int) (t : Str) (h : fmtDuration se
 at most nine digits, and both fields carry the sign of the literal. -/
 theorem unmarshalDuration_valid (s : Str) (secs nanos : Int) (h : unmarshalDuration s = some (secs, nanos)) :
     DurationValid secs nanos := by
-  by_cases hx : noDigits s
-  · rcases hx with hx | hx | hx <;> subst hx <;>
-      (have h0 : some ((0 : Int), (0 : Int)) = some (secs, nanos) := by rw [← h]; decide) <;>
-      (injection h0 with h0; injection h0 with ha hb; subst ha; subst hb) <;>
-      (unfold DurationValid maxSecondsInDuration secondsInNanos; omega)
-  · obtain ⟨⟨p, ⟨_, hf, _⟩, _, hv⟩, h1, h2⟩ := (unmarshalDuration_iff_partial s (secs, nanos) hx).mp h
-    have hn : natOfDigits (padFrac9 (optChars p.frac)) < 1000000000 := by
-      have hfd : allDigits (optChars p.frac) ∧ (optChars p.frac).length ≤ 9 := by
-        cases hfp : p.frac with
-        | none => exact ⟨allDigits_nil, by simp [optChars]⟩
-        | some ds => exact hf ds hfp
-      have hall : allDigits (padFrac9 (optChars p.frac)) := by
-        unfold padFrac9
-        rw [allDigits_append]
-        refine ⟨hfd.1, ?_⟩
-        intro c hc
-        rw [List.mem_replicate] at hc
-        rw [hc.2]; decide
-      have hlen : (padFrac9 (optChars p.frac)).length = 9 := by
-        unfold padFrac9
-        simp only [List.length_append, List.length_replicate]
-        omega
-      have := natOfDigits_lt hall
-      rw [hlen] at this
-      simpa using this
-    unfold DurParts.value at hv
-    simp only at h1 h2
-    unfold DurationValid
-    simp only [secondsInNanos]
-    split at hv <;> (injection hv with ha hb; subst ha; subst hb) <;> omega
+  obtain ⟨⟨p, ⟨_, hf, _⟩, _, hv⟩, h1, h2⟩ := (unmarshalDuration_iff s (secs, nanos)).mp h
+  have hn : natOfDigits (padFrac9 (optChars p.frac)) < 1000000000 := by
+    have hfd : allDigits (optChars p.frac) ∧ (optChars p.frac).length ≤ 9 := by
+      cases hfp : p.frac with
+      | none => exact ⟨allDigits_nil, by simp [optChars]⟩
+      | some ds => exact hf ds hfp
+    have hall : allDigits (padFrac9 (optChars p.frac)) := by
+      unfold padFrac9
+      rw [allDigits_append]
+      refine ⟨hfd.1, ?_⟩
+      intro c hc
+      rw [List.mem_replicate] at hc
+      rw [hc.2]; decide
+    have hlen : (padFrac9 (optChars p.frac)).length = 9 := by
+      unfold padFrac9
+      simp only [List.length_append, List.length_replicate]
+      omega
+    have := natOfDigits_lt hall
+    rw [hlen] at this
+    simpa using this
+  unfold DurParts.value at hv
+  simp only at h1 h2
+  unfold DurationValid
+  simp only [secondsInNanos]
+  split at hv <;> (injection hv with ha hb; subst ha; subst hb) <;> omega
 
 /-! ## Civil dates -/
 
@@ -319,7 +307,7 @@ theorem timestamp_roundtrip (secs nanos : Int) (hv : TimestampValid secs nanos) 
   unfold unmarshalTimestamp
   rw [hp]
   simp only [Option.bind_some, minTimestampSeconds, maxTimestampSeconds]
-  rw [if_neg (by omega)]
+  rw [if_neg (by omega), if_neg (fmtText_no_comma _ _ _ _ _ _ _)]
   -- the "more than nine digits after the last '.'" test does not fire
   have htm : tooManyFracDigits (dateTimeText Y.toNat M.toNat D.toNat (secs % 86400 / 3600).toNat
       (secs % 86400 % 3600 / 60).toNat (secs % 86400 % 60).toNat ++ (fracText nanos.toNat ++ ['Z'])) = false := by
@@ -356,8 +344,8 @@ theorem fmtTimestamp_frac_digits (secs nanos : Int) (t : Str) (h : fmtTimestamp 
 /-! ## Timestamp: the parser against the grammar -/
 
 /-- EXACT characterisation, for ALL strings: `unmarshalTimestamp` accepts `s` with result `v` iff `s` is a
-literal of the grammar `TsParts` with fields in range (one- or two-digit hour, '.' with at most nine digits or
-',' with any number of digits, offset up to 24:60), `v` is the instant it denotes, and the instant lies in
+literal of the grammar `TsParts` with fields in range (one- or two-digit hour, '.' with at most nine digits,
+offset up to 24:60), `v` is the instant it denotes, and the instant lies in
 0001-01-01T00:00:00Z .. 9999-12-31T23:59:59Z. -/
 theorem unmarshalTimestamp_iff (s : Str) (v : Int × Int) :
     unmarshalTimestamp s = some v ↔
@@ -376,22 +364,35 @@ theorem unmarshalTimestamp_iff (s : Str) (v : Int × Int) :
       · next hr =>
         split at h
         · cases h
-        · next htm =>
-          injection h with h
-          subst h
-          obtain ⟨p, hf, hrn, hv1, hv2⟩ := parseTime_some hp
-          have hh1 := hf.2.2.2.2.2.2.1
-          have hfr := hf.2.2.2.2.2.2.2.2.2.1
-          refine ⟨p, ⟨hf, ?_⟩, hrn, ?_, by simp only; omega, by simp only; omega⟩
-          · intro ds hds
-            apply Classical.byContradiction
-            intro hlen
-            have := (tooManyFracDigits_render p hh1 hfr).mpr ⟨ds, hds, by omega⟩
-            rw [hrn] at this
-            exact htm this
-          · unfold TsParts.value at hv1 ⊢
-            simp only at hv1
-            rw [hv1, hv2]
+        · next hcomma =>
+          split at h
+          · cases h
+          · next htm =>
+            injection h with h
+            subst h
+            obtain ⟨p, hf, hrn, hv1, hv2⟩ := parseTime_some hp
+            have hh1 := hf.2.2.2.2.2.2.1
+            have hfr := hf.2.2.2.2.2.2.2.2.2.1
+            refine ⟨p, ⟨hf, ?_⟩, hrn, ?_, by simp only; omega, by simp only; omega⟩
+            · intro comma ds hds
+              have hc : comma = false := by
+                cases comma with
+                | false => rfl
+                | true =>
+                  exfalso
+                  apply hcomma
+                  rw [← hrn]
+                  exact render_has_comma p ds hds
+              subst hc
+              refine ⟨rfl, ?_⟩
+              apply Classical.byContradiction
+              intro hlen
+              have := (tooManyFracDigits_render p hh1 hfr).mpr ⟨ds, hds, by omega⟩
+              rw [hrn] at this
+              exact htm this
+            · unfold TsParts.value at hv1 ⊢
+              simp only at hv1
+              rw [hv1, hv2]
   · rintro ⟨p, ⟨hf, hlen⟩, hr, hv, h1, h2⟩
     have hh1 := hf.2.2.2.2.2.2.1
     have hfr := hf.2.2.2.2.2.2.2.2.2.1
@@ -401,13 +402,17 @@ theorem unmarshalTimestamp_iff (s : Str) (v : Int × Int) :
     simp only [Option.bind_some]
     have hv1 : p.value.1 = v.1 := by rw [hv]
     rw [if_neg (by omega)]
+    have hnc : ¬ ',' ∈ s := by
+      rw [← hr]
+      exact render_no_comma p hh1 hfr (fun comma ds hds => (hlen comma ds hds).1)
+    rw [if_neg hnc]
     have htm : tooManyFracDigits s = false := by
       cases hb : tooManyFracDigits s with
       | false => rfl
       | true =>
         rw [← hr] at hb
         obtain ⟨ds, hds, hl⟩ := (tooManyFracDigits_render p hh1 hfr).mp hb
-        have := hlen ds hds
+        have := (hlen false ds hds).2
         omega
     rw [htm]
     simp only [Bool.false_eq_true, if_false, Option.some.injEq]
@@ -458,110 +463,64 @@ theorem unmarshalTimestamp_rfc3339 (s : Str) (v : Int × Int) :
 00:00..23:59, `Z`) within years 1–9999 is accepted with the instant it denotes -/
 theorem rfc3339_accepted (p : TsParts) (h : p.Rfc3339)
     (h1 : minTimestampSeconds ≤ p.value.1) (h2 : p.value.1 ≤ maxTimestampSeconds) :
-    unmarshalTimestamp p.render = some p.value := by
-  refine (unmarshalTimestamp_iff p.render p.value).mpr ⟨p, ⟨h.1, ?_⟩, rfl, rfl, h1, h2⟩
-  intro ds hds
-  exact (h.2.2.1 false ds hds).2
+    unmarshalTimestamp p.render = some p.value :=
+  (unmarshalTimestamp_iff p.render p.value).mpr ⟨p, ⟨h.1, h.2.2.1⟩, rfl, rfl, h1, h2⟩
 
-/-- the → half holds up to exactly three classes of strings (finding 9 and the one-digit hour): whatever is
-accepted is an RFC 3339 literal, or has a one-digit hour, or a ',' before the fraction, or an offset with
-hour 24 / minute 60 -/
+/-- the → half holds up to exactly two classes of strings (the remaining part of finding 9, and the one-digit
+hour): whatever is accepted is an RFC 3339 literal, or has a one-digit hour, or an offset with hour 24 /
+minute 60 -/
 theorem unmarshalTimestamp_rfc3339_partial (s : Str) (v : Int × Int) (h : unmarshalTimestamp s = some v) :
     ∃ p : TsParts, p.Accepted ∧ p.render = s ∧ p.value = v ∧
-      (p.Rfc3339 ∨ p.hour1 = true ∨ (∃ ds, p.frac = some (true, ds)) ∨
+      (p.Rfc3339 ∨ p.hour1 = true ∨
         (∃ neg hh mm, p.zone = some (neg, hh, mm) ∧ (hh = 24 ∨ mm = 60))) := by
   obtain ⟨p, hacc, hr, hv, _, _⟩ := (unmarshalTimestamp_iff s v).mp h
   refine ⟨p, hacc, hr, hv, ?_⟩
   by_cases c1 : p.hour1 = true
   · exact Or.inr (Or.inl c1)
-  by_cases c2 : ∃ ds, p.frac = some (true, ds)
-  · exact Or.inr (Or.inr (Or.inl c2))
   by_cases c3 : ∃ neg hh mm, p.zone = some (neg, hh, mm) ∧ (hh = 24 ∨ mm = 60)
-  · exact Or.inr (Or.inr (Or.inr c3))
+  · exact Or.inr (Or.inr c3)
   left
-  refine ⟨hacc.1, by simpa using c1, ?_, ?_⟩
-  · intro comma ds hds
-    cases comma with
-    | true => exact absurd ⟨ds, hds⟩ c2
-    | false => exact ⟨rfl, hacc.2 ds hds⟩
-  · intro neg hh mm hz
-    have hb := hacc.1.2.2.2.2.2.2.2.2.2.2 neg hh mm hz
-    have : ¬ (hh = 24 ∨ mm = 60) := fun hx => c3 ⟨neg, hh, mm, hz, hx⟩
-    omega
+  refine ⟨hacc.1, by simpa using c1, hacc.2, ?_⟩
+  intro neg hh mm hz
+  have hb := hacc.1.2.2.2.2.2.2.2.2.2.2 neg hh mm hz
+  have : ¬ (hh = 24 ∨ mm = 60) := fun hx => c3 ⟨neg, hh, mm, hz, hx⟩
+  omega
 
-/-- an RFC 3339 literal contains no ',' -/
-theorem rfc3339_no_comma (p : TsParts) (h : p.Rfc3339) : ',' ∉ p.render := by
-  obtain ⟨hf, h1, hfr, _⟩ := h
-  intro hc
-  have hd : ∀ w n, ',' ∈ padDigits w n → False := by
-    intro w n hm
-    have := allDigits_padDigits w n ',' hm
-    revert this; decide
-  simp only [TsParts.render, TsParts.hourChars, h1, Bool.false_eq_true, if_false, List.mem_append, List.mem_cons] at hc
-  rcases hc with hc | hc | hc | hc | hc | hc | hc | hc | hc | hc | hc | hc | hc
-  · exact hd _ _ hc
-  · revert hc; decide
-  · exact hd _ _ hc
-  · revert hc; decide
-  · exact hd _ _ hc
-  · revert hc; decide
-  · exact hd _ _ hc
-  · revert hc; decide
-  · exact hd _ _ hc
-  · revert hc; decide
-  · exact hd _ _ hc
-  · cases hfrac : p.frac with
-    | none => rw [hfrac] at hc; cases hc
-    | some fv =>
-      obtain ⟨comma, ds⟩ := fv
-      have hcm := (hfr comma ds hfrac).1
-      subst hcm
-      rw [hfrac] at hc
-      simp only [tsFracChars, Bool.false_eq_true, if_false, List.mem_cons] at hc
-      rcases hc with hc | hc
-      · revert hc; decide
-      · have := (hf.2.2.2.2.2.2.2.2.2.1 false ds hfrac).1 ',' hc
-        revert this; decide
-  · cases hz : p.zone with
-    | none => rw [hz] at hc; revert hc; decide
-    | some zv =>
-      obtain ⟨neg, hh, mm⟩ := zv
-      rw [hz] at hc
-      simp only [tsZoneChars, List.mem_cons, List.mem_append] at hc
-      rcases hc with hc | hc | hc | hc
-      · cases neg <;> (revert hc; decide)
-      · exact hd _ _ hc
-      · revert hc; decide
-      · exact hd _ _ hc
+/-- no accepted string contains a ',' (DESIGN finding 9, repaired by /repo 5508893) -/
+theorem unmarshalTimestamp_no_comma (s : Str) (v : Int × Int) (h : unmarshalTimestamp s = some v) : ¬ ',' ∈ s := by
+  obtain ⟨p, ⟨hf, hlen⟩, hr, _, _, _⟩ := (unmarshalTimestamp_iff s v).mp h
+  rw [← hr]
+  exact render_no_comma p hf.2.2.2.2.2.2.1 hf.2.2.2.2.2.2.2.2.2.1 (fun comma ds hds => (hlen comma ds hds).1)
 
-/-- NEGATION of `unmarshalTimestamp_rfc3339` on a concrete witness (finding 9): a string with ',' is accepted
-although no RFC 3339 literal contains one -/
+/-- NEGATION of `unmarshalTimestamp_rfc3339` on a concrete witness: a string with a one-digit hour is accepted
+although every RFC 3339 literal has at least twenty characters -/
 theorem unmarshalTimestamp_not_rfc3339 :
     ¬ (∀ (s : Str) (v : Int × Int), unmarshalTimestamp s = some v → ∃ p : TsParts, p.Rfc3339 ∧ p.render = s) := by
   intro h
-  obtain ⟨p, hp, hr⟩ := h "2000-01-01T00:00:00,1234567891Z".toList (946684800, 123456789) (by decide)
-  have := rfc3339_no_comma p hp
+  obtain ⟨p, hp, hr⟩ := h "2000-01-01T0:00:00Z".toList (946684800, 0) (by decide)
+  have := render_length p hp.2.1
   rw [hr] at this
-  exact this (by decide)
+  revert this; decide
 
 example : (⟨2000, 2, 29, 23, 59, 59, false, some (false, "123".toList), some (true, 23, 59)⟩ : TsParts).render =
     "2000-02-29T23:59:59.123-23:59".toList := by decide
 
-/-! ## Timestamp: what the parser accepts beyond RFC 3339 (finding 9 and the one-digit hour) -/
+/-! ## Timestamp: what the parser still accepts beyond RFC 3339 (rest of finding 9, one-digit hour) -/
 
-/-- finding 9: ',' is accepted as the fraction separator and the nine-digit test (which looks for '.')
-does not apply — ten digits pass, the tenth is dropped -/
-theorem unmarshalTimestamp_accepts_comma :
-    unmarshalTimestamp "2000-01-01T00:00:00,1234567891Z".toList = some (946684800, 123456789) ∧
-      unmarshalTimestamp "2000-01-01T00:00:00.1234567891Z".toList = none := by decide
+/-- finding 9, repaired: ',' as the fraction separator is rejected, with any number of digits -/
+theorem unmarshalTimestamp_rejects_comma :
+    unmarshalTimestamp "2000-01-01T00:00:00,1234567891Z".toList = none ∧
+      unmarshalTimestamp "2000-01-01T00:00:00,5-01:30".toList = none ∧
+      unmarshalTimestamp "2000-01-01T00:00:00.1234567891Z".toList = none ∧
+      unmarshalTimestamp "2000-01-01T00:00:00.123456789Z".toList = some (946684800, 123456789) := by decide
 
-/-- finding 9: zone offsets with hour 24 (and minute 60) are accepted -/
+/-- finding 9 (known finding): zone offsets with hour 24 (and minute 60) are accepted -/
 theorem unmarshalTimestamp_accepts_offset_24 :
     unmarshalTimestamp "2000-01-01T00:00:00-24:00".toList = some (946771200, 0) ∧
       unmarshalTimestamp "2000-01-01T00:00:00+23:60".toList = some (946598400, 0) ∧
       unmarshalTimestamp "2000-01-01T00:00:00+25:00".toList = none := by decide
 
-/-- a one-digit hour is accepted (layout element "15" is read with `getnum(value, false)`) -/
+/-- known finding: a one-digit hour is accepted (layout element "15" is read with `getnum(value, false)`) -/
 theorem unmarshalTimestamp_accepts_one_digit_hour :
     unmarshalTimestamp "2000-01-01T0:00:00Z".toList = some (946684800, 0) ∧
       unmarshalTimestamp "2000-01-1T00:00:00Z".toList = none := by decide
